@@ -123,3 +123,14 @@ PROPS["C20"] = {
     "rule": "cases = 3-18 bursts of scheduler steps over the event loop (data arrivals of 1-40 bytes on shared memory or fall-back, the peer's close), the callback goroutines (OnData consuming 0 / 1 / 5 / all bytes, optionally calling Close), an outside Close; then deterministic completion; corpus witnesses first; non-trivial = arrival while in process, recheck re-takes / loses the flag, Close inside OnData, goroutine waits for goroutine, fall-back data; distinct by hash of op lines",
     "assumptions": ["pending.add / moveTo / clear are mutex-protected (merged into the neighbouring access)", "OnData is scripted: it consumes a prefix of what it is offered and may call Close"],
 }
+PROPS["C16"] = {
+    "claim": "PARTIAL proof (under construction).",
+    "note": "Trusted: Lean kernel; extractor; harness.",
+    "technique": "Lean 4 proof + skeleton tie + lock-step correspondence + spec monitors",
+    "design_ref": "DESIGN.md §5 C16",
+    "lean_modules": ["ShmVerif.Model.Restart"],
+    "harness": True, "level": "proof", "trusted_base": COMMON_TB,
+    "rule": "cases = 6-35 operations",
+    "assumptions": [],
+}
+PROPS["C17"] = dict(PROPS["C16"], design_ref="DESIGN.md §5 C17")
